@@ -32,6 +32,8 @@ CONFIGS = {
     # schedule-controlled: everything compiled through the detsched shim
     "d17": dict(cxx="clang++", std="gnu++17", opt="-O1", shim=True,
                 flags="-fsanitize=address -UNDEBUG -DUNIFEX_NO_ASYNC_STACKS=1"),
+    "dg17": dict(cxx="g++", std="gnu++17", opt="-O1", shim=True,
+                 flags="-fsanitize=address -UNDEBUG -DUNIFEX_NO_ASYNC_STACKS=1"),
     "d20": dict(cxx="clang++", std="gnu++20", opt="-O1", shim=True,
                 flags="-fsanitize=address -UNDEBUG -DUNIFEX_NO_ASYNC_STACKS=1"),
 }
